@@ -240,7 +240,12 @@ class StmtMixin:
 
     def st_FunctionDef(self, s, st):
         from .core import Closure
-        st.env[s.name] = Closure(s, st.env, None)   # env shared by reference: closure sees later bindings
+        clo = Closure(s, st.env, None)   # env shared by reference: closure sees later bindings
+        clo.file = self.file
+        clo.dynamic_env = True
+        if s.decorator_list and self.has_seq_decorators(s):
+            clo = self.decorated(s, clo)
+        st.env[s.name] = clo
         return [(NEXT, None, st)]
 
     def st_Break(self, s, st):
